@@ -854,8 +854,11 @@ impl Mp4TrackWriter {
         if self.trak.mdia.mdhd.duration > (u32::MAX as u64) {
             self.trak.mdia.mdhd.version = 1
         }
-        self.trak.tkhd.duration +=
-            dur as u64 * movie_timescale as u64 / self.trak.mdia.mdhd.timescale as u64;
+        // Convert the running total rather than each sample, so that the rounding
+        // error does not grow with the number of samples.
+        let timescale = self.trak.mdia.mdhd.timescale as u128;
+        let total = self.trak.mdia.mdhd.duration as u128 * movie_timescale as u128 / timescale;
+        self.trak.tkhd.duration = total.min(u64::MAX as u128) as u64;
         if self.trak.tkhd.duration > (u32::MAX as u64) {
             self.trak.tkhd.version = 1
         }
